@@ -1509,8 +1509,6 @@ func ruleCODEC4(c *Ctx) {
 				return ok && isMethodOf(Callee(p, call), p.Types, "Compiler", "addConstant")
 			}():
 				class = "const-index"
-			case src == "len(node.Elements)" || src == "len(node.Elements)*2":
-				class = "element-count"
 			}
 			if class == "free-index" {
 				// a free index is below the capture count, which the closure site bounds
